@@ -619,7 +619,7 @@ class Ctx:
             if nm not in binding:
                 if nm in defaults:
                     dv = defaults[nm]
-                    binding[nm] = ClassRef(dv[6:]) if isinstance(dv, str) and dv.startswith("class:") else PyC(dv)
+                    binding[nm] = ClassRef(dv[6:]) if isinstance(dv, str) and dv.startswith("class:") else (Tup([], "tuple") if dv == "empty_tuple" else PyC(dv))
                 elif starkw is not None:
                     binding[nm] = app("starkw_get", asV(starkw), asV(PyC(nm)))
                 else:
